@@ -66,7 +66,10 @@ def handle (op : String) (req : Json) : R Json := do
     | none => pure (jObj [("rendered", jBool false)])
     | some rd =>
       let textOk := textHyp base rd.rows
-      let hyp := truthHyp a sel && textOk
+      -- the one part of `textHyp` that is a limit of the reader, not of the instrument: 16 characters of spot size
+      let spotOk := rd.rows.all (fun r => decide (r.spot.toList.length ≤ 16))
+      let truthOk := truthHyp a sel
+      let hyp := truthOk && textOk
       -- how the caller holds the signal (array shape) and describes its clock (stamps / interval)
       let shape ← getList asNat req "shape"
       let clock ← getStr req "clock"
@@ -86,7 +89,7 @@ def handle (op : String) (req : Json) : R Json := do
       let spot : List Rat := match (selectedPatterns a sel).head? with
         | some p => [(p.sxu : Rat) / 10000, (p.syu : Rat) / 10000]
         | none => []
-      pure (jObj [("rendered", jBool true), ("hyp", jBool hyp), ("text_ok", jBool textOk),
+      pure (jObj [("rendered", jBool true), ("hyp", jBool hyp), ("truth_ok", jBool truthOk), ("text_ok", jBool textOk), ("spot_ok", jBool spotOk),
         ("interval", jOpt jRat interval), ("shape_ok", jBool shapeOk),
         ("rows", jList jRow rd.rows), ("lines", jList (fun l => jStr (String.ofList l)) lines),
         ("times", jList jRat rd.times), ("delay", jRat rd.delay),
